@@ -3,7 +3,8 @@ import Asts.Driver.Reconcile
 namespace Asts.Driver
 open Asts
 
-def parseOwner : String → Owner | "s" => .self | "o" => .other | _ => .none
+/-- `S`, `O`, `N`: the same ownership with a non-controller owner reference next to it (ownership is the controller reference alone) -/
+def parseOwner : String → Owner | "s" => .self | "S" => .self | "o" => .other | "O" => .other | _ => .none
 def showOwner : Owner → String | .self => "s" | .other => "o" | .none => "n"
 def csv (s : String) (sep : String) : List String := if s == "" then [] else s.splitOn sep
 
